@@ -2217,7 +2217,11 @@ def _to_liquid_string(val: Any, *, auto_escape: bool = False) -> str:
     elif isinstance(val, (Empty, Blank)):
         val = ""
     else:
-        val = str(val)
+        try:
+            val = str(val)
+        except ValueError as err:
+            # An integer with more digits than the int to str conversion limit.
+            raise LiquidValueError(str(err), token=None) from err
 
     if auto_escape:
         val = escape(val)
